@@ -15,7 +15,7 @@ func init() {
 		ID:          "C10",
 		Run:         runC10,
 		Explanation: "Decides the structural clauses of failure classification and bounded recovery on every path of the two lifecycle services: (R1) the cleanup goroutine calls recoverPipeline only on the not-fatal (v2: and not-shutting-down, not-intentionally-stopped) edge, writes Degraded only on the fatal edge or after a failed recovery, and writes only a stopped status when the tomb is still alive / after a deliberate stop; (R2) recoverPipeline / StartWithBackoff have closed caller sets; (R3) StartWithBackoff waits and restarts only below the retry bound (exceeding it returns a fatal error), restarts only when the run it belongs to is still the published one, and the attempt counter is touched only by its +1/−1 (no reset); (R4) force stop and exhausted retries are fatal-tagged in both engines and a processor error whose nack fails is fatal in v1; (R5) v2 marks a deliberate stop before it stops any worker and StopAll marks the shutdown before stopping; (R7) a v2 worker kills the tomb with its own error before closing itself and a v1 node goroutine kills it with its own result before nodesWg.Done(), so the root cause (and not a still-alive tomb) decides the classification; (R8) in both engines a run parked in the recovery back-off is not restarted once a stop or a graceful shutdown marked it, and the cleanup goroutine finalizes that as UserStopped / SystemStopped; (R4 also) a failed v1 DLQ write and a v2 processor error whose nack fails are returned as fatal errors.",
-		NotDecided:  []string{"which goroutine wins the tomb at run time", "delays and windows (timing)", "v1/v2 parity of 'DLQ write failure is fatal' and 'processor error with the DLQ disabled' (reported as notes only — not demonstrated defects)"},
+		NotDecided:  []string{"which goroutine wins the tomb at run time", "delays and windows (timing)", "the classification of errors produced inside plugins"},
 		Assumptions: []string{"tomb.v2: the first Kill reason is the tomb's error", "cerrors.IsFatalError (C20.R4)"},
 	})
 	register(&Property{
